@@ -104,7 +104,8 @@ def run(ctx: Ctx) -> None:
     combos = list(itertools.product([False, True], [False, True], ["language-", "x-", ""]))
     lines, exp, metas = [], [], []
     docs = list(gens.doc_stream(rng, 500 if quick else 12000, 6))
-    docs += ["![first\nsecond](/img.png)\n", "a\nb ![x\ny *z*\nw](u) c\n", "```py\nx\n```\n", "~~~ a&b\n~~~\n", "- a\n  b\n\n1. ![p\nq](r)\n"]
+    docs += ["![first\nsecond](/img.png)\n", "a\nb ![x\ny *z*\nw](u) c\n", "```py\nx\n```\n", "~~~ a&b\n~~~\n", "- a\n  b\n\n1. ![p\nq](r)\n",
+             "\"test <br>\n", "<hr>\n\na <img src=x> b  \nc\n\n***\n"]
     for pname in ("commonmark", "js-default"):
         basemd = MarkdownIt(pname, {"xhtmlOut": False, "breaks": False, "langPrefix": "language-"})
         others = {c: MarkdownIt(pname, {"xhtmlOut": c[0], "breaks": c[1], "langPrefix": c[2]}) for c in combos}
@@ -130,6 +131,16 @@ def run(ctx: Ctx) -> None:
                 # expected: the baseline stream with visible softbreaks retyped (if breaks), rendered by the baseline renderer
                 # with only the tested option's documented local change applied
                 st = copy.deepcopy(toks)
+                raw = []        # raw HTML passes through verbatim: keep it out of reach of the expected-output rewriting
+
+                def hide(ts):
+                    for t in ts:
+                        if t.type in ("html_block", "html_inline"):
+                            raw.append(t.content)
+                            t.content = f"@@RAW{len(raw) - 1}@@"
+                        if t.children:
+                            hide(t.children)
+                hide(st)
                 if c[1]:
                     for t in st:
                         for ch in (t.children or []):
@@ -140,6 +151,7 @@ def run(ctx: Ctx) -> None:
                     want = re.sub(r"<(br|hr|img)((?: [a-z]+=\"[^\"]*\")*)>", r"<\1\2 />", want)
                 if c[2] != "language-":
                     want = re.sub(r'(<code(?: [a-z]+="[^"]*")*? class=")language-', lambda m: m.group(1) + c[2].replace("\\", "\\\\"), want)
+                want = re.sub(r"@@RAW(\d+)@@", lambda m: raw[int(m.group(1))], want)
                 if h != want:
                     ctx.fail("ropts-not-local", f"renderer options (xhtmlOut, breaks, langPrefix)={c} changed the HTML outside their documented place",
                              {"input": src, "preset": pname, "options": list(c), "got": h[:400], "want": want[:400]})
